@@ -206,7 +206,7 @@ def do_ser(eolib, job):
     return {'res': res, 'bytes': list(w.to_bytearray()), 'mode': bool(w.string_sanitization_mode)}
 
 
-def do_deser(eolib, cls, data, chunked, fail_at=None):
+def do_deser(eolib, cls, data, chunked, fail_at=None, reser=False):
     from eolib.data.eo_reader import EoReader
     r = failing_reader(EoReader, data, fail_at) if fail_at else EoReader(bytes(data))
     if chunked:
@@ -222,12 +222,25 @@ def do_deser(eolib, cls, data, chunked, fail_at=None):
         res = ['err', exc_class(e), str(e)[:120]]
     # 'heavy': hostile length fields made the deserializer loop thousands of times (fine for CPython, too slow / too large
     # for evaluating the reference semantics inside Coq): still checked by the oracle, excluded from the E1 comparison
-    return {'data': list(data), 'chunked': chunked, 'res': res, 'pos': int(r.position), 'mode': bool(r.chunked_reading_mode),
-            'heavy': bool(dt > 0.004 and res[:2] != ['err', 'EFuel'])}
+    out = {'data': list(data), 'chunked': chunked, 'res': res, 'pos': int(r.position), 'mode': bool(r.chunked_reading_mode),
+           'heavy': bool(dt > 0.004 and res[:2] != ['err', 'EFuel'])}
+    if reser and res[0] == 'ok':
+        # read-then-write: the object just read, written by a fresh writer
+        from eolib.data.eo_writer import EoWriter
+        w = EoWriter()
+        try:
+            x = limited(3, cls.serialize, w, o)
+            wres = ['ok'] if x is None else ['err', 'EUnexpected']
+        except BaseException as e:
+            wres = ['err', exc_class(e), str(e)[:120]]
+        out['reser'] = {'res': wres, 'bytes': list(w.to_bytearray()), 'mode': bool(w.string_sanitization_mode)}
+    return out
 
 
 def public_props(o):
-    return [k for k, p in vars(type(o)).items() if isinstance(p, property)]
+    """every public non-callable attribute of the class: the generated read-only properties - and whatever else the class exposes as data"""
+    return [k for k, p in vars(type(o)).items()
+            if isinstance(p, property) or (not k.startswith('_') and not callable(p) and not isinstance(p, (staticmethod, classmethod)))]
 
 
 def is_generated(o):
@@ -281,6 +294,20 @@ def poke(o, problems, where):
                 pass
             if isinstance(v, (bytearray, list, dict, set)):
                 problems.append(f"{where}: {type(sub).__qualname__}.{k} returns a mutable {type(v).__name__}")
+            if isinstance(v, (tuple, list)):
+                for x in v:
+                    if isinstance(x, (bytearray, list, dict, set)):
+                        try:
+                            if isinstance(x, bytearray):
+                                x.append(7)
+                            elif isinstance(x, list):
+                                x.append(7)
+                            else:
+                                x.clear()
+                        except BaseException:
+                            pass
+                        problems.append(f"{where}: {type(sub).__qualname__}.{k} holds a mutable {type(x).__name__} element")
+                        break
 
 
 def do_immut(eolib, job):
@@ -385,6 +412,15 @@ def do_enum(eolib, job):
         class Base(IntEnum, metaclass=ProtocolEnumMeta):
             pass
         E = Base('E', job['functional'])
+    from enum import IntEnum as _IntEnum
+    from eolib.protocol.protocol_enum_meta import ProtocolEnumMeta as _Meta
+
+    class MyInt(int):
+        pass
+
+    class Other(_IntEnum, metaclass=_Meta):
+        P = 1
+        Q = 7
     before = [[m.name, int(m)] for m in E]
     mm_before = sorted(E.__members__)
     obs = []
@@ -407,6 +443,15 @@ def do_enum(eolib, job):
             problems.append(f"constructing E({n}) changed the declared members")
         if idx < 0 and (type(v) is not E or v.name != f"Unrecognized({n})"):
             problems.append(f"E({n}) is named {v.name!r} / typed {type(v).__name__}")
+        # every integer is accepted: int subclasses, members (declared or not) of another protocol enum, bools
+        wraps = [('an int subclass instance', MyInt(n)), ('a member of another protocol enum', Other(n))] + ([('a bool', bool(n))] if n in (0, 1) else [])
+        for what, x in wraps:
+            try:
+                vx = E(x)
+                if not (vx.name == v.name and int(vx) == int(v) and type(vx) is type(v) and (idx < 0 or vx is v)):
+                    problems.append(f"E({n}) given as {what} yields {vx.name}={int(vx)}, as a plain int {v.name}={int(v)}")
+            except BaseException as e:
+                problems.append(f"E({n}) given as {what} raised {type(e).__name__}: {e}")
     return {'obs': obs, 'members': [[m.name, int(m)] for m in E], 'problems': problems}
 
 
@@ -493,7 +538,7 @@ def run_tree(root, t):
                 out = {'family': int(cls.family()), 'action': int(cls.action()),
                        'family_type': type(cls.family()).__name__, 'action_type': type(cls.action()).__name__}
             elif op == 'deser':
-                out = do_deser(eolib, find_class(eolib, job['cls']), job['data'], job['chunked'], job.get('fail_at'))
+                out = do_deser(eolib, find_class(eolib, job['cls']), job['data'], job['chunked'], job.get('fail_at'), job.get('reser', False))
             else:
                 out = {'error': 'unknown op'}
         except BaseException as e:
